@@ -28,7 +28,7 @@
        [c01_fifo_legal_consequences]: what legality means for the values.
    The consequences named in the property are [c01_no_loss_dup_invent], (1) and
    [c01_fifo_legal_consequences]. *)
-From Got Require Import Base Queue QueueProofs Linearizability QueueHistory QueueLinProofs.
+From Got Require Import Base Queue QueueProofs Linearizability QueueHistory QueueLinProofs QueueHwCheck QueueHwCheckProofs.
 From Coq Require Import Permutation.
 Local Open Scope nat_scope.
 
@@ -153,6 +153,16 @@ Theorem c01_hw_definition_rejects :
 Proof. exact q_hw_rejects_stale_nil. Qed.
 Print Assumptions c01_hw_definition_rejects.
 
+(* the executable checker that is run (extracted) on the implementation's histories, next to
+   the python brute-force monitor, is sound for the textbook definition.  (It only tries
+   H' = H, which is complete on histories in which every call returned -- those of the
+   harness; it is not claimed to be complete in general.) *)
+Theorem c01_hw_check_sound :
+  forall pre (H : hw_history q_op q_res),
+    q_hw_check pre H = true -> hw_linearizable H (q_fifo_spec pre).
+Proof. exact q_hw_check_sound. Qed.
+Print Assumptions c01_hw_check_sound.
+
 (* non-vacuity: a concrete 3-thread run with a lagging tail that is helped, a failed CAS,
    an empty Pop and a successful Pop *)
 Example c01_nonvacuous :
@@ -199,4 +209,12 @@ Example c01_hw_nonvacuous_pending :
   hw_complete (q_history tr ++ q_hw_ext tr)
     = [HInv 0 (QPush 5%Z); HInv 1 QPop; HRes 1 (QRPop (Some 5%Z)); HRes 0 QRPush] /\
   q_hw_seq tr = [HInv 0 (QPush 5%Z); HRes 0 QRPush; HInv 1 QPop; HRes 1 (QRPop (Some 5%Z))].
+Proof. vm_compute. repeat split. Qed.
+
+Example c01_hw_check_examples :
+  let s0 := q_init [] [[QPush 5%Z]; [QPush 6%Z]; [QPop]] in
+  let tr := q_trace s0 [0; 1;1;1;1;1;1; 2;2;2;2;2;2; 0;0;0;0;0] in
+  q_hw_check [] (q_history tr) = true /\
+  qh_verify [] (q_history tr) (q_hw_ext tr) (q_hw_seq tr) = true /\
+  q_hw_check [] [HInv 0 (QPush 1%Z); HRes 0 QRPush; HInv 1 QPop; HRes 1 (QRPop None)] = false.
 Proof. vm_compute. repeat split. Qed.
